@@ -17,6 +17,7 @@ type deferRec struct {
 }
 
 type State struct {
+	heapsPrev map[string]*Term // transient: previous version of the heap being stored to
 	pc     *Term
 	heaps  map[string]*Term
 	regs   map[ssa.Value]Value
@@ -198,6 +199,9 @@ func heapFieldName(st types.Type, field string) string {
 func (x *Exec) fieldAddr(base *Term, T types.Type, i int) *Term {
 	s, _ := structOf(T)
 	name := "fa$" + typeName(T) + "$" + s.Field(i).Name()
+	if _, ok := x.faFieldType[name]; !ok {
+		x.faFieldType[name] = typeName(s.Field(i).Type())
+	}
 	t := x.tt.UF(name, "Int", base)
 	x.noteAddr(t)
 	return t
@@ -299,8 +303,47 @@ func (x *Exec) load(st *State, p *Term, T types.Type) Value {
 		h := x.heap(st, "M$"+typeName(T), arraySort("Int", srt))
 		v = x.tt.Select(h, p)
 	}
-	x.assumeLoaded(st, v, T)
+	x.assumeLoadedFrom(st, v, T)
+	x.noteLoadedFrom(st, p, v, T)
 	return v
+}
+
+// assumeLoadedFrom: like assumeLoaded, but a value read from the entry version of a heap existed at entry.
+func (x *Exec) assumeLoadedFrom(st *State, v *Term, T types.Type) {
+	if v.Kind == KApp && v.Op == "select" {
+		a := v.Args[0]
+		for a.Kind == KApp && a.Op == "select" {
+			a = a.Args[0]
+		}
+		if a.Kind == KSym && strings.HasSuffix(a.Op, "@0") {
+			switch T.Underlying().(type) {
+			case *types.Pointer, *types.Map:
+				if !v.hasBound {
+					x.addFactRaw(x.tt.Lt(x.tt.UF("birth$", "Int", v), x.tt.Sym("clk@0", "Int")))
+				}
+			}
+		}
+	}
+	x.assumeLoaded(st, v, T)
+}
+
+// noteLoadedFrom: bookkeeping for the ownership forest (children of validator objects, arrays they own).
+func (x *Exec) noteLoadedFrom(st *State, p, v *Term, T types.Type) {
+	if len(x.prog.Cons.ValidatorTypes) == 0 || v.hasBound || p.hasBound {
+		return
+	}
+	owner := x.validatorOwnerOfAddr(st, p)
+	if owner == nil {
+		return
+	}
+	switch {
+	case x.isValidatorPtrType(T):
+		x.noteChildLoad(owner, v)
+	case v.Sort == "Val":
+		x.valOrigin[v.id] = owner
+	case v.Sort == "Slice":
+		x.arrOwnerHint[x.sArr(v).id] = owner
+	}
 }
 
 // assumeLoaded: typing facts for values read from the heap.
@@ -389,6 +432,9 @@ func (x *Exec) store(st *State, p *Term, T types.Type, val Value) {
 		st.heaps[name] = x.tt.Store(h, p.Args[0], v)
 		x.recordWrite(name, p.Args[0])
 		x.noteInvStore(p)
+		st.heapsPrev = map[string]*Term{name: h}
+		x.noteOwnerStore(st, p, v, T)
+		st.heapsPrev = nil
 	case shElem:
 		name := "A$" + typeName(T)
 		h := x.heap(st, name, arraySort("Int", arraySort("Int", srt)))
@@ -409,6 +455,7 @@ func (x *Exec) recordWrite(heap string, idx *Term) {
 	for _, r := range x.recorders {
 		r.writes = append(r.writes, writeRec{heap, idx})
 	}
+	x.checkWrite(heap, idx)
 }
 
 type writeRec struct {
@@ -478,7 +525,11 @@ func (x *Exec) alloc(st *State, what string) *Term {
 	st.clk = tt.Add(st.clk, tt.IntLit(1))
 	// a fresh object is neither in a pool nor published
 	for _, g := range []string{"G$redeemed", "G$published"} {
-		if _, used := x.heapSorts[g]; used {
+		_, used := x.heapSorts[g]
+		if g == "G$redeemed" && len(x.prog.Cons.ValidatorTypes) > 0 {
+			used = true
+		}
+		if used {
 			h := x.heap(st, g, arraySort("Int", "Bool"))
 			st.heaps[g] = tt.Store(h, r, tt.False())
 		}
@@ -597,4 +648,56 @@ func (x *Exec) sweepTagsOr(fr *Frame) []string {
 		return fr.con.frameTags()
 	}
 	return nil
+}
+
+// noteOwnerStore: storing a slice or map into a field of an object of a mutable type makes that object the owner
+// of the backing array / map (ghost G$owner).
+func (x *Exec) noteOwnerStore(st *State, fieldPtr, v *Term, T types.Type) {
+	if len(x.prog.Cons.ValidatorTypes) == 0 || !x.prog.Cons.OwnedFields[strings.Replace(fieldPtr.Op[3:], "$", ".", 1)] {
+		return
+	}
+	var ref *Term
+	switch T.Underlying().(type) {
+	case *types.Slice:
+		ref = x.sArr(v)
+	case *types.Map:
+		ref = v
+	default:
+		return
+	}
+	tt := x.tt
+	if v, ok := intVal(ref); ok && v.Sign() == 0 {
+		return // nil slice / map: nothing to own
+	}
+	h := x.heap(st, "G$owner", arraySort("Int", "Int"))
+	// re-slicing or appending in place keeps the array: ownership is only taken of a different array
+	prevName := "H$" + fieldPtr.Op[3:]
+	if ph, ok := st.heapsPrev[prevName]; ok {
+		var prevRef *Term
+		pv := tt.Select(ph, fieldPtr.Args[0])
+		if pv.Sort == "Slice" {
+			prevRef = x.sArr(pv)
+		} else {
+			prevRef = pv
+		}
+		if prevRef == ref {
+			return
+		}
+		nv := tt.Ite(tt.Or(tt.Eq(ref, tt.IntLit(0)), tt.Eq(ref, prevRef)), tt.Select(h, ref), x.baseObject(fieldPtr.Args[0]))
+		st.heaps["G$owner"] = tt.Store(h, ref, nv)
+		x.recordWrite("G$owner", ref)
+		return
+	}
+	// only base arrays (not nil) get an owner
+	nv := tt.Ite(tt.Eq(ref, tt.IntLit(0)), tt.Select(h, ref), x.baseObject(fieldPtr.Args[0]))
+	st.heaps["G$owner"] = tt.Store(h, ref, nv)
+	x.recordWrite("G$owner", ref)
+}
+
+// baseObject: the object an embedded struct address belongs to (fa$T$f(b) -> b, recursively).
+func (x *Exec) baseObject(p *Term) *Term {
+	for shapeOf(p) == shField {
+		p = p.Args[0]
+	}
+	return p
 }
